@@ -57,6 +57,7 @@ UOther  == <<104,116,116,112,58,47,47,120,46,105,110,118,97,108,105,100,47,111,1
 UAlt == <<104,116,116,112,58,47,47,120,46,105,110,118,97,108,105,100,47,97,47,98,46,106,115,111,110>>   \* http://x.invalid/a/b.json
 UAltDefs == <<104,116,116,112,58,47,47,120,46,105,110,118,97,108,105,100,47,97,47,100,101,102,115,46,106,115,111,110>>   \* http://x.invalid/a/defs.json
 K_t == <<116, 116>>
+K_u == <<117, 117>>
 K_chain == <<99,104,97,105,110>>
 K_xdefs == <<120,45,100,101,102,115>>
 
@@ -104,6 +105,13 @@ Scenario ==
                                          <<IF D = 3 THEN Arr(<<RefObj(UOther \o DefRef(K_t))>>) ELSE RefObj(UOther \o DefRef(K_t))>>
                                            \o TRef(DefRef(n)).v \o <<Defs(n)>>),
                               more |-> <<[u |-> UOther, doc |-> Obj1(K_definitions, JObj(<<K_t, n>>, <<Obj1(K_type, Str(T_null)), EmptyObj>>))]>>]
+    \* the same, the cross-document reference designating a schema that is ITSELF only a reference (two nested scopes are
+    \* entered, and both are left when the verdict is known after the first error): afterwards the base is the root's again
+    [] arr = "mixedchain" -> [S |-> JObj(<<IF D = 3 THEN K_disallow ELSE K_not>> \o TRef(DefRef(n)).k \o <<K_definitions>>,
+                                         <<IF D = 3 THEN Arr(<<RefObj(UOther \o DefRef(K_t))>>) ELSE RefObj(UOther \o DefRef(K_t))>>
+                                           \o TRef(DefRef(n)).v \o <<Defs(n)>>),
+                              more |-> <<[u |-> UOther, doc |-> Obj1(K_definitions, JObj(<<K_t, K_u, n>>,
+                                            <<RefObj(DefRef(K_u)), Obj1(K_type, Str(T_null)), EmptyObj>>))]>>]
     \* the OTHER drafts' id keyword on the way to the reference must NOT change the base (C10, second half)
     [] arr = "otherid"    -> [S |-> JObj(<<IdKw(D)>> \o Wrapper(EmptyObj).k,
                                          <<Str(UDirRoot)>> \o Wrapper(WithFirst(TRef(RelDefs \o DefRef(n)),
@@ -135,7 +143,7 @@ Scenario ==
                                          [u |-> UNestedDefs, doc |-> Obj1(K_definitions, Defs(n))]>>]
 
 AllArrs == {"local", "rootid", "rootidhash", "absref", "relid", "storeabs", "storerel", "storeownid", "chain",
-            "arrayelem", "nestedabs", "nestedrel", "mixed", "otherid", "recursive", "shadow", "pctsep", "claimed", "emptyref", "urn", "twobases"}
+            "arrayelem", "nestedabs", "nestedrel", "mixed", "otherid", "recursive", "shadow", "pctsep", "claimed", "emptyref", "urn", "twobases", "mixedchain"}
 
 QuickNames == {1, 2, 3, 5, 6, 8, 10, 13, 20}
 ThoroughNames == DOMAIN AllNames
@@ -147,7 +155,7 @@ ChooseBase == stage = 0 /\ bi' \in DOMAIN Bases /\ stage' = 1 /\ UNCHANGED <<pos
 ChoosePos  == stage = 1 /\ pos' \in { p \in SubschemaPaths(D, T) : Extractable(p) } /\ stage' = 2 /\ UNCHANGED <<bi, name, arr>>
 ChooseName == stage = 2 /\ name' \in { AllNames[i] : i \in Names } /\ stage' = 3 /\ UNCHANGED <<bi, pos, arr>>
 ChooseArr  == /\ stage = 3 /\ arr' \in Arrs /\ stage' = 4 /\ UNCHANGED <<bi, pos, name>>
-              /\ (arr' = "mixed" => ~HasKey(T, IF D = 3 THEN K_disallow ELSE K_not))      \* keys of an object are unique
+              /\ (arr' \in {"mixed", "mixedchain"} => ~HasKey(T, IF D = 3 THEN K_disallow ELSE K_not))      \* keys of an object are unique
               /\ (arr' \in {"recursive", "emptyref"} => pos # <<>> /\ pos[1].s \in {K_properties, K_patternProperties, K_additionalProperties,
                                                                      K_items, K_additionalItems, K_contains})
 Next == ChooseBase \/ ChoosePos \/ ChooseName \/ ChooseArr
@@ -167,7 +175,7 @@ Transparent ==
          IN  a.exc = {} /\ a.ood = {} /\ LocBag(a.errs, b.errs)
 \* extraction preserves meaning: the scenario behaves as the original reference-free schema
 SameAsOriginal ==
-  (stage = 4 /\ arr \notin {"mixed", "recursive", "emptyref"}) =>
+  (stage = 4 /\ arr \notin {"mixed", "mixedchain", "recursive", "emptyref"}) =>
     LET sc == Scenario  env == REnv(sc) IN
     \A i \in 1 .. NI : LocBag(Run(D, env, sc.S, RInstances[i]).errs, Run(D, EnvFor(D, T, UPats), T, RInstances[i]).errs)
 
